@@ -363,3 +363,43 @@ fn nf_infinity_norm() {
         assert!(infinity_norm(&w) as i64 == want(&all), "infinity_norm two-hot ({}, {}): got {}, the norm is {}", a, b, infinity_norm(&w), want(&all));
     }
 }
+
+// C15 / C18 / C13: the modular reductions on structured points of their documented domains (no overflow in a checked build, output
+// range, congruence): powers of two, domain ends, multiples of q and a deterministic pseudo-random sweep
+#[test]
+fn nf_reductions() {
+    use crate::helpers::{full_reduce32, mont_reduce, partial_reduce32, partial_reduce64};
+    const QI: i128 = 8_380_417;
+    let cong = |a: i128, b: i128| (a - b).rem_euclid(QI) == 0;
+    // partial_reduce64 on a = x * 2^32, |x| < 67_058_539
+    let mut xs: Vec<i64> = vec![0, 1, -1, 67_058_538, -67_058_538, 67_057_000, -67_057_000, 35_093_512, -35_093_512, 33_554_432, -33_554_432];
+    for k in 0..27 { for d in [-1i64, 0, 1] { let v = (1i64 << k) + d; xs.push(v); xs.push(-v); } }
+    for m in [1i64, 2, 3, 4, 5, 6, 7, 8] { for d in [-1i64, 0, 1] { xs.push(m * 8_380_417 + d); xs.push(-(m * 8_380_417 + d)); } }
+    let mut s: u64 = 0x9E37_79B9_7F4A_7C15;
+    for _ in 0..4000 { s = s.wrapping_mul(6364136223846793005).wrapping_add(1442695040888963407); xs.push(((s >> 16) % (2 * 67_058_538 + 1)) as i64 - 67_058_538); }
+    for &x in &xs {
+        if x.abs() >= 67_058_539 { continue; }
+        let a = x << 32;
+        let r = partial_reduce64(a);
+        assert!((r as i64).abs() < 2 * 8_380_417, "partial_reduce64({} << 32) = {} out of range", x, r);
+        assert!(cong(r as i128, a as i128), "partial_reduce64({} << 32) = {} is not congruent to its input", x, r);
+    }
+    // partial_reduce32 / full_reduce32 on |a| < 2_143_289_344
+    let mut ys: Vec<i32> = vec![0, 1, -1, 2_143_289_343, -2_143_289_343, 4_190_208, 4_190_209, -4_190_208, -4_190_209];
+    for k in 0..31 { for d in [-1i64, 0, 1] { let v = (1i64 << k) + d; if v < 2_143_289_344 { ys.push(v as i32); ys.push((-v) as i32); } } }
+    for m in 1..=255i64 { for d in [-1i64, 0, 1] { let v = m * 8_380_417 + d; if v < 2_143_289_344 { ys.push(v as i32); ys.push((-v) as i32); } } }
+    for &y in &ys {
+        let p = partial_reduce32(y);
+        assert!((p as i64).abs() <= 6_291_200 && cong(p as i128, y as i128), "partial_reduce32({}) = {}", y, p);
+        let f = full_reduce32(y);
+        assert!((0..8_380_417).contains(&f) && cong(f as i128, y as i128), "full_reduce32({}) = {}", y, f);
+    }
+    // mont_reduce on products of the magnitudes its callers supply
+    for &u in &[0i64, 1, -1, 35_093_512, -35_093_512, 8_380_416, 8_380_672, -255, 4_190_208, 65_536] {
+        for &v in &[0i64, 1, -1, 8_380_416, 8_380_672, -255, 16_382, 25_847, 2_365_951, 8192] {
+            let a = u * v;
+            let r = mont_reduce(a);
+            assert!((r as i64).abs() < 8_380_417 && cong((r as i128) << 32, a as i128), "mont_reduce({} * {}) = {}", u, v, r);
+        }
+    }
+}
